@@ -91,8 +91,10 @@ package transaction
 //@   requires transaction != nil
 //@   modifies transaction.ObjectMeta, transaction.Index, txnCreates, lastCreatedTxn, lastCreatedTxnRollbackIndex, lastCreatedTxnSync
 //@   ensures txnCreates == old(txnCreates) + 1 && lastCreatedTxn == transaction
+//@   ensures errWF(err)
 //@   ensures lastCreatedTxnSync == (transaction.TransactionStrategy.Synchronicity == configapi.TransactionStrategy_SYNCHRONOUS)
 //@   ensures isType(transaction.Details, "*configapi.Transaction_Rollback") && asType(transaction.Details, "*configapi.Transaction_Rollback") != nil && asType(transaction.Details, "*configapi.Transaction_Rollback").Rollback != nil ==> lastCreatedTxnRollbackIndex == asType(transaction.Details, "*configapi.Transaction_Rollback").Rollback.RollbackIndex
 //@ iface Store.Watch(ctx, ch, opts) (err)
 //@   modifies txnWatches
 //@   ensures txnWatches == old(txnWatches) + 1
+//@   ensures errWF(err)
